@@ -815,6 +815,7 @@ def iterate(eng, st, v):
             st.assume(keys.n >= 0)
             tmp = SSet(c.tk, c.has, keys, idx)
             assume_keys_inv(st, tmp)
+            eng.__dict__.setdefault("_enum_idx", {})[id(keys)] = (keys, idx)     # position of each member in this ghost enumeration
             yield st, keys
         else:
             yield from iterate(eng, st, c.keys)
@@ -1023,7 +1024,10 @@ def container_call(eng, st, target, name, args, kwargs, node=None):
                     if isinstance(ks, list):
                         yield s1, [((k, c.get(k)) if name == "items" else c.get(k)) for k in ks]
                     else:
-                        yield s1, ItemsSeq(c, ks, name)
+                        it = ItemsSeq(c, ks, name)
+                        ent = e.__dict__.get("_enum_idx", {}).get(id(ks))
+                        it.idx = c.idx if c.idx is not None else (ent[1] if ent is not None else None)
+                        yield s1, it
             view = IterView(gen)
             if name == "values":
                 view.values_of = c     # supports `x in d.values()` on a symbolic map
@@ -1630,6 +1634,7 @@ class ItemsSeq:
 
     def __init__(self, m, keys, name):
         self.m, self.keys, self.name, self.n = m, keys, name, keys.n
+        self.idx = getattr(m, "idx", None)
 
     def at(self, i):
         k = self.keys.at(i)
@@ -2268,6 +2273,26 @@ def _sym_comprehension(eng, st, node, kind, si, elt, saved, restore):
             yield st, q
         else:
             yield st, QuantSeq(j.z, seq.n, v, cond)
+        return
+    if kind == "dict":
+        # {key: value for key, value in m.items() if cond}: supported when the source is the items view of a map and the new key is
+        # the item's own key (keys of one dict are distinct, so no entry overwrites another): a filtered / re-valued copy of m
+        if not (isinstance(seq, ItemsSeq) and seq.name == "items" and isinstance(v, tuple) and len(v) == 2
+                and hasattr(v[0], "z") and z3.eq(z3.simplify(v[0].z), z3.simplify(seq.keys.at(j).z))):
+            raise Unsupported("dict comprehension over a symbolic sequence other than {k: f(k, v) for k, v in m.items() if c}")
+        m = seq.m
+        tv = type_of(v[1])
+        k = z3.Const(fresh_name("k"), m.tk.z3sort())
+        idx = m.idx if m.idx is not None else getattr(seq, "idx", None)
+        pos = z3.Select(idx, k) if idx is not None else None
+        if pos is None:
+            raise Unsupported("dict comprehension over an unordered map")
+        sub = [(j.z, pos)]
+        c_k = z3.substitute(cond, *sub) if cond is not None else z3.BoolVal(True)
+        v_k = z3.substitute(to_z3(v[1], tv), *sub)
+        has = z3.Lambda([k], z3.And(z3.Select(m.has, k), c_k))
+        val = z3.Lambda([k], v_k)
+        yield st, st.alloc(SMap(m.tk, tv, has, val), "dict")
         return
     if cond is not None:
         if kind == "set":
